@@ -377,6 +377,9 @@ pub struct Report {
     pub violations: Vec<Violation>,
     pub known_hits: BTreeMap<String, String>,
     pub harness_errors: Vec<String>,
+    /// failures of the harness' own self-checks that the code under test can cause (a batch that is not repeatable
+    /// because the code keeps process-wide state): a harness error only if no verified violation is reported
+    pub soft_errors: Vec<String>,
 }
 
 impl Report {
@@ -391,6 +394,7 @@ impl Report {
             violations: Vec::new(),
             known_hits: BTreeMap::new(),
             harness_errors: Vec::new(),
+            soft_errors: Vec::new(),
         }
     }
 
@@ -454,6 +458,17 @@ impl Report {
                 eprintln!("HARNESS-ERROR: {e}");
             }
             return 2;
+        }
+        if !self.soft_errors.is_empty() {
+            if self.violations.is_empty() {
+                for e in &self.soft_errors {
+                    eprintln!("HARNESS-ERROR: {e}");
+                }
+                return 2;
+            }
+            for e in &self.soft_errors {
+                println!("NOTE: {e} - together with the verified violation(s) below this points at state that the code under test keeps between runs");
+            }
         }
         if self.violations.is_empty() {
             println!(
